@@ -331,6 +331,9 @@ func fmtStatuses(ss []c18Status) string {
 type c18PeerRcpt struct {
 	Code    int  `json:"code"`    // reply to RCPT: 250, 251 (will forward), 550, 452
 	Deliver bool `json:"deliver"` // positive status after DATA
+	// Multi: the peer's replies for this recipient (to RCPT and after DATA)
+	// have two lines; a reply is a reply however many lines it has
+	Multi bool `json:"multi,omitempty"`
 }
 
 type c18PeerCase struct {
@@ -344,7 +347,7 @@ func c18PeerServe(conn net.Conn, c c18PeerCase) {
 	io.WriteString(conn, "220 peer LMTP\r\n")
 	ti, ri := -1, 0
 	var accepted []string
-	var verdicts []bool
+	var verdicts, multis []bool
 	for {
 		line, err := br.ReadString('\n')
 		if err != nil {
@@ -356,7 +359,7 @@ func c18PeerServe(conn net.Conn, c c18PeerCase) {
 			io.WriteString(conn, "250-peer\r\n250-PIPELINING\r\n250 ENHANCEDSTATUSCODES\r\n")
 		case strings.HasPrefix(up, "MAIL"):
 			ti++
-			ri, accepted, verdicts = 0, nil, nil
+			ri, accepted, verdicts, multis = 0, nil, nil, nil
 			io.WriteString(conn, "250 2.1.0 sender ok\r\n")
 		case strings.HasPrefix(up, "RCPT"):
 			code := 550
@@ -367,15 +370,19 @@ func c18PeerServe(conn net.Conn, c c18PeerCase) {
 			}
 			addr := fmt.Sprintf("t%dr%d@x", ti, ri)
 			ri++
+			first := ""
+			if rc.Multi {
+				first = fmt.Sprintf("%d-%d.1.5 first line\r\n", code, code/100)
+			}
 			switch code {
 			case 250:
-				accepted, verdicts = append(accepted, addr), append(verdicts, rc.Deliver)
-				io.WriteString(conn, "250 2.1.5 recipient ok\r\n")
+				accepted, verdicts, multis = append(accepted, addr), append(verdicts, rc.Deliver), append(multis, rc.Multi)
+				io.WriteString(conn, first+"250 2.1.5 recipient ok\r\n")
 			case 251:
-				accepted, verdicts = append(accepted, addr), append(verdicts, rc.Deliver)
-				io.WriteString(conn, "251 2.1.5 user not local; will forward\r\n")
+				accepted, verdicts, multis = append(accepted, addr), append(verdicts, rc.Deliver), append(multis, rc.Multi)
+				io.WriteString(conn, first+"251 2.1.5 user not local; will forward\r\n")
 			case 452:
-				io.WriteString(conn, "452 4.5.3 too many recipients\r\n")
+				io.WriteString(conn, first+"452 4.5.3 too many recipients\r\n")
 			default:
 				io.WriteString(conn, "550 5.1.1 no such user\r\n")
 			}
@@ -395,13 +402,18 @@ func c18PeerServe(conn net.Conn, c c18PeerCase) {
 				}
 			}
 			for i, a := range accepted {
-				if verdicts[i] {
+				switch {
+				case verdicts[i] && multis[i]:
+					io.WriteString(conn, "250-2.1.5 <"+a+"> delivered\r\n250 2.1.5 to the inbox\r\n")
+				case verdicts[i]:
 					io.WriteString(conn, "250 2.1.5 <"+a+"> delivered\r\n")
-				} else {
+				case multis[i]:
+					io.WriteString(conn, "552-5.2.2 <"+a+"> verdict-for-"+a+"\r\n552 5.2.2 mailbox full\r\n")
+				default:
 					io.WriteString(conn, "552 5.2.2 <"+a+"> verdict-for-"+a+"\r\n")
 				}
 			}
-			accepted, verdicts = nil, nil
+			accepted, verdicts, multis = nil, nil, nil
 		case up == "RSET", up == "NOOP":
 			io.WriteString(conn, "250 2.0.0 ok\r\n")
 		case up == "QUIT":
@@ -609,7 +621,8 @@ func TestC18(t *testing.T) {
 		for i, n := 0, rapid.IntRange(1, 3).Draw(rt, "ntxn"); i < n; i++ {
 			var tx []c18PeerRcpt
 			for j, m := 0, rapid.IntRange(1, 3).Draw(rt, "nrcpt"); j < m; j++ {
-				tx = append(tx, c18PeerRcpt{Code: rapid.SampledFrom([]int{250, 250, 251, 251, 550, 452}).Draw(rt, "code"), Deliver: rapid.Bool().Draw(rt, "deliver")})
+				tx = append(tx, c18PeerRcpt{Code: rapid.SampledFrom([]int{250, 250, 251, 251, 550, 452}).Draw(rt, "code"), Deliver: rapid.Bool().Draw(rt, "deliver"),
+					Multi: rapid.IntRange(0, 3).Draw(rt, "multi") == 0})
 			}
 			c.Txns = append(c.Txns, tx)
 		}
